@@ -46,7 +46,7 @@ class Fault(Exception):
 
 
 FAULT = {'at': None, 'count': 0, 'fired': None, 'armed': False,
-         'match': None}
+         'match': None, 'any': False}
 INRUN = {'on': False}
 
 
@@ -56,8 +56,8 @@ def statement_wrapper(alias):
         ev = emit('sql', alias=alias, sql=sql, params=_jsonable(params),
                   ok=True, mutating=mut,
                   inrun=bool(sys.modules[__name__].INRUN['on']))
-        if mut and FAULT['armed'] and (FAULT['match'] is None or
-                                       FAULT['match'](sql)):
+        if (mut or FAULT.get('any')) and FAULT['armed'] and (
+                FAULT['match'] is None or FAULT['match'](sql)):
             FAULT['count'] += 1
             ev['n'] = FAULT['count']
             if FAULT['at'] is not None and FAULT['count'] == FAULT['at']:
@@ -256,6 +256,8 @@ def run_action(action, args):
                 ev.queue_evolve_all_apps()
             if args.get('purge'):
                 ev.queue_purge_old_apps()
+            for label in args.get('purge_apps') or []:
+                ev.queue_purge_app(label)
             if not args.get('no_facts_before'):
                 res['facts'].update(evolver_facts(ev))
             if res['facts'].get('evolution_required') or args.get('force'):
